@@ -108,7 +108,9 @@ CHECKS = {
               "sign-checked multipliers). The model is replayed on the implementation's recorded LP answers and must reproduce terms "
               "(1e-9) and tactic numbers exactly; C04 is also decided exactly on every implementation result. C04_code_*: the term "
               "arithmetic the tactics use (isolate_variable, substitute_variable, remove_variable, multiply, __add__, "
-              "get_coefficient, contains_var, vars) as translated from polyhedra.py on this run equals the model functions (T1 tie)."),
+              "get_coefficient, contains_var, vars) and the pure-Python glue of PolyhedralTermList (_transform, _transform_term with the "
+              "TACTICS table, both elimination wrappers, _get_kaykobad_context, _tactic_1..5 over abstract LP/sympy primitives) as "
+              "translated from polyhedra.py on this run equal the model functions of model/Term.v and model/Tactics.v (T1 tie)."),
         design="4 (C04)", note=NOTE_R + " sympy.solve is replaced in the model by exact Gauss-Jordan (solutions compared at 1e-9); inputs must not use the reserved variable name '_' (C04_underscore_is_reserved shows why)."),
     "C09": dict(
         technique="Coq proof about hand-written executable models (PEG parser, folding actions) + exhaustive/differential correspondence + exact semantic oracle",
@@ -116,7 +118,9 @@ CHECKS = {
               "actions hold at a real point exactly when the written relation holds under ordinary real arithmetic), C09_parse_sound "
               "(its composition with the parser model), C09_convex (convexity error iff an absolute term ends up with a non-positive "
               "coefficient), C09_string_errors (every string is read or rejected with the syntax / convexity error, nothing else), "
-              "C09_parser_total and the whitespace-insensitivity theorems (props/C09.v). model/Grammar.v is validated "
+              "C09_parser_total and the whitespace-insensitivity theorems; C09_code_*: the syntax classes, all parse actions and the "
+              "expression-to-terms conversion as translated from data.py / grammar.py / serializer.py on this run equal model/Syntax.v "
+              "(replaying the generated parse actions over any tree gives fold_expr) (props/C09.v). model/Grammar.v is validated "
               "against the real pyparsing grammar on every token string up to length 3/4 and random strings; model/Syntax.v against the "
               "real parse actions; end to end the implementation must agree with parse_terms and with an independent exact decision "
               "of the relation's meaning over all real points."),
@@ -131,6 +135,8 @@ CHECKS = {
               "character-level grammar model as the printer's tree (literals normalised), so parsing all printed strings gives terms "
               "meaning the 4-digit rounding of the original (exactly the original for exactly printable numbers and pairs), for "
               "every printable list over grammar-readable variable names. "
+              "C10_code_* / C14_code_*: to_machine_dict, to_dict, from_dict, validate_contract_dict, _check_clause and the file "
+              "reader/writer (between json.load and json.dumps) as translated from the source on this run equal model/Json.v (T1 tie). "
               "model/Printer.v agrees with Python character for character on doubles across decades/ties/switch-overs and on "
               "to_str_list; model/Json.v agrees on dictionaries; real round trips through dicts, strings and files are re-decided exactly."),
         design="4 (C10)", note=NOTE_R + " The string round trip uses the real parser (model: C09); -0.0/NaN/inf outside the models."),
@@ -139,7 +145,7 @@ CHECKS = {
         text=("Theorems C11_contains_exact/_contains_real/_unassigned/_mono (model/Term.v contains_behavior: membership decided exactly, "
               "boundary included; ValueError iff a constrained variable is unassigned) and C11_is_empty (poly_is_empty true iff no real "
               "point satisfies the list, for every exact total LP oracle); implementation and model compared exactly inside Coq on "
-              "boundary-adjacent dyadic behaviours and thin systems; answers re-decided with exact rational arithmetic."),
+              "boundary-adjacent dyadic behaviours and thin systems; answers re-decided with exact rational arithmetic. C11_code_evaluate / _contains_behavior: the methods as translated from polyhedra.py on this run equal the model functions (T1 tie)."),
         design="4 (C11)", note=NOTE_R),
     "C12": dict(
         technique="Coq proof about a hand-written executable model + correspondence with LP replay + certified exact oracle",
